@@ -364,14 +364,15 @@ impl ZchState {
                                 {
                                     break;
                                 }
-                                len += 1;
+                                len = len.saturating_add(1);
                             }
                             len
                         })
                         .unwrap_or(0)
                 };
                 self.zchd.zchd_prior_activation = Some(a.clone());
-                self.zchd.zchd_same_hold_activation_count += 1;
+                self.zchd.zchd_same_hold_activation_count =
+                    self.zchd.zchd_same_hold_activation_count.saturating_add(1);
 
                 self.zchd
                     .zchd_restart_deadline(self.zch_cfg.zch_cfg_ticks_chord_deadline);
@@ -380,13 +381,15 @@ impl ZchState {
                     // outputs chords that are of a maybe-to-be-activated-later chord with more
                     // participating keys. This procedure erases both classes of typed characters
                     // in order to have the correct typed output for this chord activation.
-                    for _ in 0..(self.zchd.zchd_characters_to_delete_on_next_activation
-                        + if is_prioritized_activation {
+                    for _ in 0..(self
+                        .zchd
+                        .zchd_characters_to_delete_on_next_activation
+                        .saturating_add(if is_prioritized_activation {
                             self.zchd.zchd_prior_activation_output_count
                         } else {
                             0
-                        }
-                        - common_prefix_len_from_past_activation)
+                        })
+                        .saturating_sub(common_prefix_len_from_past_activation))
                     {
                         kb.press_key(OsCode::KEY_BACKSPACE)?;
                         kb.release_key(OsCode::KEY_BACKSPACE)?;
@@ -398,9 +401,14 @@ impl ZchState {
                     // Followup chords may consist of an empty output; eventually in the followup
                     // chain has an activation output that is not empty. For empty outputs, do not
                     // do any backspacing.
-                    self.zchd.zchd_characters_to_delete_on_next_activation += 1;
-                    self.zchd.zchd_prior_activation_output_count +=
-                        self.zchd.zchd_input_keys.zchik_keys().len() as i16;
+                    self.zchd.zchd_characters_to_delete_on_next_activation = self
+                        .zchd
+                        .zchd_characters_to_delete_on_next_activation
+                        .saturating_add(1);
+                    self.zchd.zchd_prior_activation_output_count = self
+                        .zchd
+                        .zchd_prior_activation_output_count
+                        .saturating_add(self.zchd.zchd_input_keys.zchik_keys().len() as i16);
                     kb.press_key(osc)?;
                 }
 
@@ -462,8 +470,10 @@ impl ZchState {
                         }
                     };
 
-                    self.zchd.zchd_characters_to_delete_on_next_activation +=
-                        key_to_send.output_char_count();
+                    self.zchd.zchd_characters_to_delete_on_next_activation = self
+                        .zchd
+                        .zchd_characters_to_delete_on_next_activation
+                        .saturating_add(key_to_send.output_char_count());
 
                     if !released_sft && !self.zchd.zchd_is_caps_word_active {
                         released_sft = true;
@@ -498,8 +508,12 @@ impl ZchState {
                     // to achieve a chord in the first place,
                     // as well as by chord activations that are overlapped
                     // by the intended final chord.
-                    self.zchd.zchd_prior_activation_output_count += 1;
-                    self.zchd.zchd_characters_to_delete_on_next_activation += 1;
+                    self.zchd.zchd_prior_activation_output_count =
+                        self.zchd.zchd_prior_activation_output_count.saturating_add(1);
+                    self.zchd.zchd_characters_to_delete_on_next_activation = self
+                        .zchd
+                        .zchd_characters_to_delete_on_next_activation
+                        .saturating_add(1);
 
                     kb.press_key(OsCode::KEY_SPACE)?;
                     kb.release_key(OsCode::KEY_SPACE)?;
@@ -538,7 +552,10 @@ impl ZchState {
 
             IsSubset => {
                 self.zchd.zchd_last_press = ZchLastPressClassification::NotChord;
-                self.zchd.zchd_characters_to_delete_on_next_activation += 1;
+                self.zchd.zchd_characters_to_delete_on_next_activation = self
+                    .zchd
+                    .zchd_characters_to_delete_on_next_activation
+                    .saturating_add(1);
                 kb.press_key(osc)
             }
 
